@@ -648,6 +648,8 @@ impl SvgElement {
             ));
         }
         if surround.is_none() && inside.is_none() {
+            // nothing to keep a margin from: the attribute is ours, not SVG's
+            self.pop_attr("margin");
             return Ok(());
         }
 
